@@ -1623,20 +1623,24 @@ class Interp:
         names = [x.arg for x in a.args]
         env2: dict = {}
         extra: list = []
-        for i, arg in enumerate(e.args):
+        positional: list = []
+        for arg in e.args:
             if isinstance(arg, ast.Starred):
                 try:
                     v_ = self.ev(arg.value, env)
                 except (Unknown, NotPolynomial):
                     return Opaque("star arguments")
-                if not isinstance(v_, (list, tuple)) or i < len(names):
+                if not isinstance(v_, (list, tuple)):
                     return Opaque("star arguments")
-                extra += list(v_)
+                positional += list(v_)  # f(*seq, x): the items of a known sequence take the positions in order
                 continue
             try:
-                val = self.ev(arg, env)
+                positional.append(self.ev(arg, env))
             except (Unknown, NotPolynomial) as ex:
-                val = Opaque(str(ex))
+                if isinstance(ex, RaisedIn):
+                    raise
+                positional.append(Opaque(str(ex)))
+        for i, val in enumerate(positional):
             if i < len(names):
                 env2[names[i]] = val
             else:
@@ -3280,7 +3284,9 @@ def _called_on_point_class() -> bool:
 
 
 def rule_metric_constructions(run: Run, prog: Program, part: str = "metric") -> int:
-    if part == "harmonic":
+    if part == "midpoint":
+        pass
+    elif part == "harmonic":
         run.rule("E19.harm", "harmonic_set(a, b, c) in the plane for symbolic a, b and c = alpha a + beta b, interpreted through the complete-quadrilateral construction "
                              "(join / meet through the duality dispatcher; the auxiliary point off the line is a free symbolic point, so the result must not depend on "
                              "it): the returned point is a non-zero multiple of alpha a - beta b, the point with cross ratio -1")
@@ -3362,6 +3368,46 @@ def rule_metric_constructions(run: Run, prog: Program, part: str = "metric") -> 
         return t
 
     n_ob = 0
+    if part == "midpoint":
+        run.rule("E19.mid", "SegmentTensor.midpoint in the plane for symbolic end points a, b given by arbitrary representatives, interpreted through the meet of the "
+                            "supporting line with the line at infinity and harmonic_set (with a free symbolic auxiliary point): the returned point is a non-zero multiple "
+                            "of b_w a + a_w b, the point (a/a_w + b/b_w) / 2")
+        seg = prog.find_cls("SegmentTensor")
+        fn_m = prog.lookup(seg, "midpoint") if seg else None
+        label = "midpoint of a segment of the plane"
+        if fn_m is None:
+            run.add("E19.mid", "SegmentTensor.midpoint", label, UNDECIDED, "SegmentTensor.midpoint not found", "")
+            return 0
+        fn_m = prog.body_of(fn_m)
+        a_, b_ = obj("a", 3, True), obj("b", 3, True)
+        it = make_interp()
+        free_pt = obj("o", 3, True)
+        inner_join = it.hooks["join"]
+
+        def join_gp(args_, kw_):
+            got = inner_join(args_, kw_)
+            if isinstance(got, TensorSym):
+                got.__dict__["general_point"] = free_pt
+            return got
+        it.hooks["join"] = join_gp
+        try:
+            line_ab = join_gp([a_, b_], {})
+            me = ObjSym(seg, _line=line_ab, vertices=[a_, b_], dim=2, free_indices=0)
+            res = it.run_method(fn_m, me, [], {})
+            if not isinstance(res, TensorSym) or not isinstance(res.array, Table) or res.array.shape != (3,):
+                raise Unknown(f"the result is not read ({getattr(res, 'why', type(res).__name__)[:80]})")
+            aw, bw = a_.array.data[(2,)], b_.array.data[(2,)]
+            want = [bw * a_.array.data[(i,)] + aw * b_.array.data[(i,)] for i in range(3)]
+            got = [res.array.data[(i,)] for i in range(3)]
+            ok = not all(zero_mod(g_, it.rules) for g_ in got) and all(zero_mod(got[i] * want[j] - got[j] * want[i], it.rules) for i in range(3) for j in range(i + 1, 3))
+            run.add("E19.mid", fn_m.short, label, PROVEN if ok else VIOLATION,
+                    "the returned point is a non-zero multiple of b_w a + a_w b for every representative of the end points and every auxiliary point" if ok else
+                    "the returned point is not a multiple of b_w a + a_w b: it is not the midpoint (or depends on representatives / the auxiliary point)", fn_m.loc)
+        except RaisedIn as r_:
+            run.add("E19.mid", fn_m.short, label, VIOLATION, f"raises {r_.name} for end points in general position", fn_m.loc)
+        except (Unknown, NotPolynomial, RecursionError, KeyError, IndexError, TypeError, AttributeError) as ex:
+            run.add("E19.mid", fn_m.short, label, UNDECIDED, f"not read: {type(ex).__name__}: {str(ex)[:100]}", fn_m.loc)
+        return 1
     if part == "harmonic":
         fn_h = prog.find_func("harmonic_set")
         if fn_h is None:
